@@ -33,6 +33,7 @@ type World struct {
 	notes     []string
 	contractFilesInRepo map[string]string // pkg -> "repo" | "mirror"
 	assumedUsed map[string]bool
+	aliases     map[string]map[string]string // package path -> import alias -> import path
 }
 
 const contractFileName = "zz_contracts_verif.go"
@@ -57,6 +58,19 @@ func loadWorld(repo, verif string) (*World, error) {
 	}
 	if nerr > 0 {
 		return nil, fmt.Errorf("%d package load errors", nerr)
+	}
+	w.aliases = map[string]map[string]string{}
+	for _, p := range pkgs {
+		for _, f := range p.Syntax {
+			for _, im := range f.Imports {
+				if im.Name != nil && im.Name.Name != "_" && im.Name.Name != "." {
+					if w.aliases[p.PkgPath] == nil {
+						w.aliases[p.PkgPath] = map[string]string{}
+					}
+					w.aliases[p.PkgPath][im.Name.Name] = strings.Trim(im.Path.Value, "\"")
+				}
+			}
+		}
 	}
 	w.pkgs = pkgs
 	if len(pkgs) > 0 {
@@ -297,6 +311,17 @@ func (w *World) lookupType(expr string, pkgPath string) (types.Type, error) {
 	}
 	if i := strings.LastIndex(e, "."); i > 0 {
 		q, n := e[:i], e[i+1:]
+		if ap, ok := w.aliases[pkgPath][q]; ok {
+			if p := w.tpkgs[ap]; p != nil {
+				if tn, ok := p.Scope().Lookup(n).(*types.TypeName); ok {
+					var t types.Type = tn.Type()
+					for ; ptr > 0; ptr-- {
+						t = types.NewPointer(t)
+					}
+					return t, nil
+				}
+			}
+		}
 		for path, p := range w.tpkgs {
 			if path == q || strings.HasSuffix(path, "/"+q) || p.Name() == q {
 				if o := p.Scope().Lookup(n); o != nil {
@@ -321,4 +346,42 @@ func (w *World) funcOf(key string) *ssa.Function {
 		key = key[:i]
 	}
 	return w.funcs[key]
+}
+
+
+// interfaceMethodExists: "(pkg/path.Iface).Method" names a method of an interface type that exists.
+func (w *World) interfaceMethodExists(abs string) bool {
+	if i := strings.LastIndex(abs, "@"); i >= 0 {
+		abs = abs[:i]
+	}
+	if !strings.HasPrefix(abs, "(") {
+		return false
+	}
+	j := strings.Index(abs, ").")
+	if j < 0 {
+		return false
+	}
+	tn, m := strings.TrimPrefix(abs[1:j], "*"), abs[j+2:]
+	k := strings.LastIndex(tn, ".")
+	if k < 0 {
+		return false
+	}
+	p := w.tpkgs[tn[:k]]
+	if p == nil {
+		return false
+	}
+	o, ok := p.Scope().Lookup(tn[k+1:]).(*types.TypeName)
+	if !ok {
+		return false
+	}
+	it, ok := o.Type().Underlying().(*types.Interface)
+	if !ok {
+		return false
+	}
+	for i := 0; i < it.NumMethods(); i++ {
+		if it.Method(i).Name() == m {
+			return true
+		}
+	}
+	return false
 }
